@@ -351,6 +351,18 @@ theorem src_pinv_sound (hd : 0 < d) (t : HT d α) (hwf : t.WF) (hh : Honest t.cl
   simp only [gen_Homogeneous_apply_eq]
   exact pinv_sound hd t hh hdet
 
+/-- … and without any exactness: the translated `pseudoinverse()` of every non-singular member with the structural zero
+pattern of its class (every matrix of floats the code can hold) carries the inverse matrix, exchanges the end points and
+undoes the translated `_apply` from both sides -/
+theorem src_pinv_inverts (hd : 0 < d) (t : HT d α) (hwf : t.WF) (hs : Structural t.cls t.h) (hdet : (toM t.h).det ≠ 0) :
+    ∃ u, srcPinv t = some u ∧ u.cls = t.cls ∧ toM u.h = (toM t.h)⁻¹ ∧
+      u.ends = t.ends.map (fun e => (e.2, e.1)) ∧
+      (∀ x y, gen_Homogeneous_apply t x = some y → gen_Homogeneous_apply u y = some x) ∧
+      (∀ x y, gen_Homogeneous_apply u y = some x → gen_Homogeneous_apply t x = some y) := by
+  rw [srcPinv_eq t hwf]
+  simp only [gen_Homogeneous_apply_eq]
+  exact pinv_inverts hd t hs hdet
+
 theorem states_wf (t : HT d α) (ops : List (Option (Op d α))) (hwf : t.WF) :
     ∀ s ∈ statesAtQueries HT.act t ops, s.WF := by
   induction ops generalizing t with
